@@ -78,8 +78,9 @@ type Ctx struct {
 	False  *Term
 	// Known maps a term to a constant it is known to equal on the current
 	// path (equality propagation). Reset per path by the executor.
-	Known map[*Term]*Term
-	vars  map[string]*Term
+	Known    map[*Term]*Term
+	vars     map[string]*Term
+	vecCache map[*Term]*Vec
 }
 
 func NewCtx() *Ctx {
